@@ -24,7 +24,7 @@ var propOrder = []string{"C03", "C04", "C05", "C06", "C07", "C08", "C09", "C10",
 var props = map[string]propCfg{
 	"C19": {
 		level: "exploration",
-		rule:  "each run: a session of 1-3 steps, each with 1-3 expected outputs (constant and variable patterns, guards that accept, reject, or test the bound value) and optionally an inverted output, step timeouts 300 ms / 1 s / default 2 s; the simulated child answers each input with the ideal lines for that step after one stream fault (none, duplicate, drop, duplicate-in-place-of-dropped, reorder, delayed past the timeout, noise and unrelated JSON, forbidden line before the last required one, value rejected by the guard, guard rejecting everything); Session.Run runs for real on the simulated clock under the serial scheduler; distinct = distinct (outputs, fault) shapes x verdict",
+		rule:  "each run: a session of 1-3 steps, each with 1-3 expected outputs (constant and variable patterns, guards that accept, reject, or test the bound value) and optionally an inverted output, step timeouts 300 ms / 1 s / default 2 s; the simulated child answers each input with the ideal lines for that step after one stream fault (none, duplicate, drop, duplicate-in-place-of-dropped, reorder, delayed past the timeout, noise and unrelated JSON, forbidden line before the last required one, value rejected by the guard, guard rejecting everything, a later step asking for an earlier step's pattern with a guard that accepts nothing); Session.Run runs for real on the simulated clock under the serial scheduler; distinct = distinct (outputs, fault) shapes x verdict",
 		parts: []part{{name: "", engine: "expect", race: false, quick: 10000, thorough: 100000}},
 		comps: []string{"real: tools/expect Session.Run (reader, writer and timer goroutines, matching, guard compilation and execution) - instrumented copy with exec.Command replaced by simexec.Command", "stub: the child process (scripted goroutine over io.Pipes)", "simulated: clock, goroutine scheduling, the child's output stream and its faults"},
 		assum: []string{"the oracle asserts necessary conditions for a pass (strict direction) and that a never-arriving expected message ends in an error rather than a hang; it does not assert that the tool passes whenever it could"},
@@ -100,7 +100,7 @@ var props = map[string]propCfg{
 	},
 	"C12": {
 		level: "exploration",
-		rule:  "shared: one generated compiled spec, 2-6 walker tasks with their own states and 1-3 messages, results compared with the same walks done alone; in half of the runs one walker's context is cancelled (after a drawn number of scheduling points, or by the simulator exactly when that walker is about to run a script for the n-th time) and it goes on through a backlog of up to 9 more messages with its dead context - only its own results are excused; in half of the runs the scheduler weighs the tasks unequally (1, 4 or 16, redrawn now and then) instead of equally; swap: an UpdatableSpec holding version A or B (every action tags its emissions), 2-5 walkers x 1-4 calls and a swapper task issuing 1-6 swaps, each call must equal that call under A alone or under B alone; serial scheduler with yields at Step/Walk/consider/try/Exec entries, race monitor on; distinct = distinct schedule hashes; non-trivial = at least one scheduling choice",
+		rule:  "shared: one generated compiled spec (a quarter name their automatic error node differently: Spec.ErrorNode), 2-6 walker tasks with their own states and 1-3 messages, results compared with the same walks done alone; in half of the runs one walker's context is cancelled (after a drawn number of scheduling points, or by the simulator exactly when that walker is about to run a script for the n-th time) and it goes on through a backlog of up to 9 more messages with its dead context - only its own results are excused; in half of the runs the scheduler weighs the tasks unequally (1, 4 or 16, redrawn now and then) instead of equally; swap: an UpdatableSpec holding version A or B (every action tags its emissions), 2-5 walkers x 1-4 calls and a swapper task issuing 1-6 swaps, each call must equal that call under A alone or under B alone; serial scheduler with yields at Step/Walk/consider/try/Exec entries, race monitor on; distinct = distinct schedule hashes; non-trivial = at least one scheduling choice",
 		parts: []part{
 			{name: "shared", engine: "core", race: true, quick: 3000, thorough: 40000},
 			{name: "swap", engine: "core", race: true, quick: 2000, thorough: 40000},
@@ -109,7 +109,7 @@ var props = map[string]propCfg{
 	},
 	"C14": {
 		level: "exploration",
-		rule:  "mcrew: 1-4 recorder machines, 1-2 client tasks x 1-3 messages (targets absent, id, unknown id, timers, http, ws; nested emission instructions, timers that deliver messages later), counting oracle over the recorders' logs at quiescence and over the Emitted channel; sio: a crew of 1-5 recorder machines, 1-4 submitted messages with unique ids, routing targets (absent, id, '*', unknown, service names, lists with unknown, repeated, non-string and service members) and nested emission instructions (hop budget 2); the order in which machines are presented a message comes from the map-order seam; counting oracle over the recorders' logs and Result.Emitted; distinct = distinct (crew size, processed/batch counts) shapes",
+		rule:  "mcrew: 1-4 recorder machines, 1-2 client tasks x 1-3 messages (targets absent, id, unknown id, timers, http, ws; nested emission instructions, timers that deliver messages later), counting oracle over the recorders' logs at quiescence and over the Emitted channel; sio: a crew of 1-5 recorder machines, 1-4 submitted messages with unique ids, routing targets (absent, id, '*', unknown, service names, lists with unknown, repeated, non-string and service members) and nested emission instructions (hop budget 2); the order in which machines are presented a message comes from the map-order seam; counting oracle over the recorders' logs and Result.Emitted; sio-loop: the same through the crew's own Loop with a pipelined submitter and a consumer task, a recipient whose state cannot be encoded in a quarter of the messages, or (half of the crews) a machine without state that emits and never changes - then the batches in the results handed to the couplings must equal the model's; distinct = distinct (crew size, processed/batch counts) shapes",
 		parts: []part{{name: "sio", engine: "sio", race: false, quick: 10000, thorough: 150000}, {name: "sio-loop", engine: "sio", race: true, quick: 600, thorough: 15000}, {name: "captain-list", engine: "sio", race: false, quick: 3000, thorough: 40000}, {name: "mcrew", engine: "mcrew", race: true, quick: 800, thorough: 15000}},
 		comps: []string{"real: sio.Crew ProcessMsg/RunMachines/toMachines, core.Walk, ecmascript interpreter (instrumented copies)", "real: cmd/mcrew Service.Process/Route/toTimers/Timers on a real bbolt store (tmpfs) with recorder machines loaded from a spec file; client tasks and the service's asynchronous re-processing goroutines under the serial scheduler with the simulated clock", "reference: router models (documented routing rules) in the harnesses", "simulated: order in which machines are presented a message (map-order seam), goroutine scheduling, clock", "not simulated: real HTTP egress, WebSocket peers (messages to 'http'/'ws' are only checked to reach no machine)"},
 	},
@@ -121,18 +121,18 @@ var props = map[string]propCfg{
 	},
 	"C16": {
 		level: "fault_enumeration",
-		rule:  "faults: one client, 3-9 operations (add, remove, process, read crew; NaN-producing machines, empty and 40 kB ids) over <=3 ids, at every operation position the store may start or stop failing (bbolt closed / reopened), after every operation memory is compared with memory-before (failed writes) and with Storage.GetCrew (healthy store); concurrent: 2-4 client tasks x 1-4 operations under the serial scheduler, porcupine against a sequential crew model with the final memory as one more read, plus memory == store at quiescence; both: clients plus a task closing/reopening the store, only the quiescent invariant after the store is back; distinct = distinct (operation, fault) sequences / schedule hashes",
+		rule:  "faults: one client, 3-9 operations (add, remove, process, read crew; NaN-producing machines, empty and 40 kB ids; half of the adds and removes through the protocol layer's OpAdd.Do / OpRem.Do with no state given, for one of three specs of which two declare a parameter with a default) over <=3 ids, at every operation position the store may start or stop failing (bbolt closed / reopened), after every operation memory is compared with memory-before (failed writes) and with Storage.GetCrew (healthy store); concurrent: 2-4 client tasks x 1-4 operations under the serial scheduler, porcupine against a sequential crew model with the final memory as one more read, plus memory == store at quiescence; both: clients plus a task closing/reopening the store, only the quiescent invariant after the store is back; distinct = distinct (operation, fault) sequences / schedule hashes",
 		parts: []part{
 			{name: "faults", engine: "mcrew", race: false, quick: 8000, thorough: 80000},
 			{name: "concurrent", engine: "mcrew", race: true, quick: 800, thorough: 15000},
 			{name: "both", engine: "mcrew", race: true, quick: 800, thorough: 15000},
 		},
-		comps: []string{"real: cmd/mcrew Service (AddMachine, RemMachine, Process, crew.Copy), Storage on a real bbolt file (tmpfs), core.Walk, ecmascript interpreter - instrumented copies", "injected: store closed/reopened at operation positions and (part both) at scheduler steps, encode faults (NaN binding), key faults (empty / oversize id); bbolt's own crash consistency is not faulted", "reference: sequential crew model (map id -> state, recipients by the routing rule) for porcupine"},
+		comps: []string{"real: cmd/mcrew Service (AddMachine, RemMachine, Process, crew.Copy), protocol.go OpAdd.Do / OpRem.Do, Storage on a real bbolt file (tmpfs), core.Walk, ecmascript interpreter - instrumented copies", "injected: store closed/reopened at operation positions and (part both) at scheduler steps, encode faults (NaN binding), key faults (empty / oversize id); bbolt's own crash consistency is not faulted", "reference: sequential crew model (map id -> state, recipients by the routing rule) for porcupine"},
 		assum: []string{"Walk as reported by Process (From/To of each machine) is taken as the sequential transition of the crew model"},
 	},
 	"C17": {
 		level: "exploration",
-		rule:  "each run: a tape-generated plan of make/cancel/sleep requests over <=3 timer ids issued by 1-3 requester tasks plus handler-issued requests, executed on the real timers code under the serial scheduler with the simulated clock; distinct = distinct (operation history, schedule) event hashes; non-trivial = at least one timer fired or was cancelled and at least two tasks interleaved",
+		rule:  "each run: a tape-generated plan of make/cancel/sleep requests over <=3 timer ids issued by 1-3 requester tasks plus handler-issued requests, executed on the real timers code under the serial scheduler with the simulated clock; sio-restart: 1-4 timers (10 ms to 1 h, and due at once: 0 and -1 ms) made through a running crew whose reports a consumer folds into a store, a crash 0-2 s after the last request, a downtime, a crew booted from the store that also takes requests - pending timers fire once and not early, cancelled ones never, and every timer made was listed as pending by some report before the crash; distinct = distinct (operation history, schedule) event hashes; non-trivial = at least one timer fired or was cancelled and at least two tasks interleaved",
 		parts: []part{
 			{name: "mcrew-timers", engine: "mcrew", race: true, quick: 4000, thorough: 60000},
 			{name: "sio-timers", engine: "sio", race: true, quick: 1500, thorough: 30000},
